@@ -6,7 +6,7 @@ def caps(n):
 
 OPS_FOR = {
     "C04": None,   # all
-    "C05": ["push", "pop", "push_at", "pop_at", "get_set", "mem_rem", "resize", "del", "concat", "assign"],
+    "C05": ["push", "pop", "push_at", "pop_at", "get_set", "mem_rem", "resize", "del", "concat", "assign", "sort"],
     "C11": ["iter", "iter_dup"],
     "C12": ["pop", "push_at", "pop_at", "get_set", "set_bad", "mem_rem", "resize", "stack"],
     "C19": ["get_set", "push", "stack"],
@@ -72,6 +72,8 @@ def _array_jobs(tier, prop):
         add("del", n, n + 1, covers=True, extra=["--memory-leak-check"])
         add("iter", n, n, covers=True)
         add("mark", n, n, covers=True)
+        if n <= 2:      # length 3 exhausts the solver (recursion + element swaps through symbolic offsets)
+            add("sort", n, n, covers=True, extra=["--unwindset", "Array_Sort_Part:%d" % (n + 1)])
         for m in range(0, 3):
             add("assign", n, n, m=m, covers=(m == 1))
         for m in range(0, nmax + 1):
@@ -106,6 +108,14 @@ def _list_jobs(tier, prop):
                      assumptions=["element model (contracts/elem.h)", "calloc/free: cbmc built-in models, allocation failure not explored (--no-malloc-may-fail)",
                                   "header_init per its K1 contract (C19.header_init.k1)"]))
     for n in range(0, nmax + 1):
+        big = (n == nmax)          # the largest length only for the index-walking operations (List_At walks from either end)
+        if big:
+            for i in range(-(n + 1), n + 2):
+                add("push_at", n, idx=i); add("pop_at", n, idx=i)
+            for i in range(-n, n):
+                add("get_set", n, idx=i)
+            add("iter", n); add("pop", n); add("push", n)
+            continue
         add("push", n, covers=True); add("pop", n, covers=True)
         for i in range(-(n + 3), n + 3):
             add("push_at", n, idx=i, covers=(i == 0))
